@@ -82,6 +82,8 @@ structure WorldSpec where
   svc : Service
   resolver : Option ResolverTable
   up : Bool
+  /-- names of the scripted interfaces (the ones whose calls the harness logs) -/
+  scripts : List String := []
 
 instance : Inhabited WorldSpec :=
   ⟨{ svc := { vendor := "", product := "", version := "", url := "", ifaces := [] }, resolver := none, up := false }⟩
@@ -102,12 +104,20 @@ def parseResolver : Sx → Option (Option ResolverTable)
       | _ => none).map some
   | _ => none
 
+/-- the names registered with a `script` / `script-avail` entry -/
+def scriptNamesOf : Sx → List String
+  | .list [.atom "svc", _, _, _, _, .list (.atom "ifaces" :: is)] =>
+    is.filterMap fun i => match i with
+      | Sx.list [Sx.atom k, n, _] => if k == "script" || k == "script-avail" then asStr n else none
+      | _ => none
+  | _ => []
+
 def parseWorld : Sx → Option WorldSpec
-  | .list [.atom "world", svc, r, up] => do
-    let svc ← parseSvc svc
+  | .list [.atom "world", svcSx, r, up] => do
+    let svc ← parseSvc svcSx
     let r ← parseResolver r
     let up ← match up with | .atom "t" => some true | .atom "f" => some false | _ => none
-    pure { svc, resolver := r, up }
+    pure { svc, resolver := r, up, scripts := scriptNamesOf svcSx }
   | _ => none
 
 end VV
